@@ -531,7 +531,8 @@ def run_case(case):
             r = random.Random(case['seed'] + c)
             for rd in range(case['rounds']):
                 for k, dl in enumerate(deadlines):
-                    t = tok(c, rd * 100 + k, sleep=SERVICE * r.choice([0.5, 1, 1, 1.5]))
+                    # every third victim's late outcome is a failure (the worker raises), not a value
+                    t = tok(c, rd * 100 + k, sleep=SERVICE * r.choice([0.5, 1, 1, 1.5]), fail=(k % 3 == 2 and not case['batch']))
                     try:
                         y = server.call(t, timeout=dl, backpressure=False)
                         with lock:
@@ -544,6 +545,9 @@ def run_case(case):
                         with lock:
                             if type(e).__name__ == 'ServerBacklogFull' and e.args[1] is not None:
                                 obs['gave_up_waiting_for_room'] = obs.get('gave_up_waiting_for_room', 0) + 1
+                            elif type(e).__name__ == 'Boom' and any(a == 'fail' for _, a, _ in t[3]):
+                                check_witness(t, e, 'victim-in-time')  # its own failure arrived in time
+                                obs['witness_requests'] -= 1
                             else:
                                 viol.append({'mech': 'abandon/victim-wrong-error', 'msg': f'short-deadline call raised {e!r} instead of TimeoutError'})
 
@@ -552,7 +556,8 @@ def run_case(case):
             for rd in range(case['rounds'] * 4):
                 n = 6
                 pos = rd % (n + 1)
-                toks = [tok(c, rd * 100 + k, sleep=SERVICE * r.choice([0.25, 1])) for k in range(n)]
+                # on odd rounds the elements the consumer never reaches end in a failure (their late outcome is an exception)
+                toks = [tok(c, rd * 100 + k, sleep=SERVICE * r.choice([0.25, 1]), fail=(rd % 2 == 1 and k > pos and not case['batch'])) for k in range(n)]
                 it = server.stream(iter(toks), return_x=True, timeout=30)
                 k = 0
                 try:
@@ -626,7 +631,8 @@ def run_case(case):
             r = random.Random(case['seed'] + c)
             for rd in range(case['rounds']):
                 for k, dl in enumerate(deadlines):
-                    t = tok(c, rd * 100 + k, sleep=SERVICE * r.choice([0.5, 1, 1, 1.5]))
+                    # every third victim's late outcome is a failure (the worker raises), not a value
+                    t = tok(c, rd * 100 + k, sleep=SERVICE * r.choice([0.5, 1, 1, 1.5]), fail=(k % 3 == 2 and not case['batch']))
                     if k % 5 == 4:
                         task = asyncio.ensure_future(server.call(t, timeout=30, backpressure=False))
                         await asyncio.sleep(dl)
@@ -646,6 +652,9 @@ def run_case(case):
                     except Exception as e:  # noqa: BLE001
                         if type(e).__name__ == 'ServerBacklogFull' and e.args[1] is not None:
                             obs['gave_up_waiting_for_room'] = obs.get('gave_up_waiting_for_room', 0) + 1
+                        elif type(e).__name__ == 'Boom' and any(a == 'fail' for _, a, _ in t[3]):
+                            check_witness(t, e, 'victim-in-time')
+                            obs['witness_requests'] -= 1
                         else:
                             viol.append({'mech': 'abandon/victim-wrong-error', 'msg': f'short-deadline call raised {e!r} instead of TimeoutError'})
 
@@ -680,7 +689,8 @@ def run_case(case):
                     continue
                 n = 6
                 pos = rd % (n + 1)
-                toks = [tok(c, rd * 100 + k, sleep=SERVICE * r.choice([0.25, 1])) for k in range(n)]
+                # on odd rounds the elements the consumer never reaches end in a failure (their late outcome is an exception)
+                toks = [tok(c, rd * 100 + k, sleep=SERVICE * r.choice([0.25, 1]), fail=(rd % 2 == 1 and k > pos and not case['batch'])) for k in range(n)]
 
                 async def src():
                     for t in toks:
@@ -743,7 +753,16 @@ def run_case(case):
     def lifetime():
         if is_async:
             async def main():
-                asyncio.get_running_loop().set_exception_handler(lambda loop, ctx: loop_errors.append(repr(ctx.get('exception') or ctx.get('message'))[:300]))
+                def on_loop_error(loop, ctx):
+                    msg = str(ctx.get('message'))
+                    if 'was never retrieved' in msg:
+                        # the failure of an abandoned request that nobody will ever look at (e.g. the one element the feeder of a closed stream
+                        # submitted last): asyncio logs it when the future is collected.  Noise, not harm: counted, not a violation
+                        obs['unretrieved_abandoned_failures'] = obs.get('unretrieved_abandoned_failures', 0) + 1
+                        return
+                    loop_errors.append((msg + ': ' + repr(ctx.get('exception')))[:300])
+
+                asyncio.get_running_loop().set_exception_handler(on_loop_error)
                 try:
                     async with server:
                         with fz:
